@@ -443,6 +443,14 @@ impl Quantity {
         if self.unit == other.unit {
             return Ok((self.value, other.value));
         }
+        // A zero can be expressed in any unit. This is what makes comparisons
+        // with the polymorphic literal `0` work (e.g. `x > 0` for a length `x`).
+        if other.is_zero() {
+            return Ok((self.value, other.convert_to(&self.unit)?.value));
+        }
+        if self.is_zero() {
+            return Ok((self.convert_to(&other.unit)?.value, other.value));
+        }
         let (_, self_factor) = self.unit.to_base_unit_representation();
         let (_, other_factor) = other.unit.to_base_unit_representation();
         let common = if self_factor.to_f64() < other_factor.to_f64()
